@@ -896,7 +896,7 @@ class RtpWorld(Component):
     theorems = ["recv_next_total", "recv_next_rejected_unchanged", "handle_rtp_data_total", "handle_rtcp_data_total",
                 "receiver_handle_rtp_total", "sender_handle_rtcp_total", "nack_add_bounded", "parsers_total_rtp"]
     quick = 260
-    thorough = 1800
+    thorough = 1200
 
     def __init__(self):
         self._slow = {}
